@@ -15,9 +15,9 @@ namespace smt
 
     SMT_EXPORT bool rational::operator!=(const rational &rhs) const noexcept { return num != rhs.num || den != rhs.den; }
     SMT_EXPORT bool rational::operator<(const rational &rhs) const noexcept { return (den == rhs.den) ? num < rhs.num : num * rhs.den < den * rhs.num; }
-    SMT_EXPORT bool rational::operator<=(const rational &rhs) const noexcept { return num * rhs.den <= den * rhs.num; }
+    SMT_EXPORT bool rational::operator<=(const rational &rhs) const noexcept { return (den == rhs.den) ? num <= rhs.num : num * rhs.den <= den * rhs.num; }
     SMT_EXPORT bool rational::operator==(const rational &rhs) const noexcept { return num == rhs.num && den == rhs.den; }
-    SMT_EXPORT bool rational::operator>=(const rational &rhs) const noexcept { return num * rhs.den >= den * rhs.num; }
+    SMT_EXPORT bool rational::operator>=(const rational &rhs) const noexcept { return (den == rhs.den) ? num >= rhs.num : num * rhs.den >= den * rhs.num; }
     SMT_EXPORT bool rational::operator>(const rational &rhs) const noexcept { return (den == rhs.den) ? num > rhs.num : num * rhs.den > den * rhs.num; }
 
     SMT_EXPORT bool rational::operator!=(const I &rhs) const noexcept { return num != rhs || den != 1; }
